@@ -634,7 +634,7 @@ func families(tier string) []fw.Family {
 			segFamily("arc(r in {.5,1,2,3}^2, rot {0,30,45,90,135}, flags, end [-2..2]^2)"+sfx, curvefam.NArc, arc, f, tols),
 		)
 	}
-	fs = append(fs, twoSegments(tols), twoSubpaths(tols), thinEllipses(tols), nearCollinear(tier), largeFine(tier), lineBetweenCurves(tols))
+	fs = append(fs, twoSegments(tols), twoSubpaths(tols), thinEllipses(tols), nearCollinear(tier), largeFine(tier), lineBetweenCurves(tols), almostClosedArcs(tols))
 	return fs
 }
 
